@@ -111,3 +111,39 @@ def rows_valid(named_player_items, multi_pl, tol=1e-9):
         elif any(not (math.isfinite(x) and x > 0) for x in r) or abs(sum(r) - 1.0) > tol:
             bad.append((info, r))
     return bad
+
+
+def alternating_tree(rng, depth, first=1, p_stop=0.1, share=0.4, chance_rate=0.15):
+    """A bushy game in which the players move in turn (2-3 actions each), occasionally interrupted by chance nodes and
+    early terminals; a player's nodes may share an infoset when the own history agrees.  In the external-sampling
+    frontier only the updating player's decisions branch, so such trees make the frontier stop in the middle of a level
+    with a short remainder - the shape on which workspace state leaking between passes shows (D1/D2)."""
+    pools = {}
+    counter = [0]
+
+    def fresh():
+        counter[0] += 1
+        return counter[0]
+
+    def go(d, pl, h):
+        if d == 0 or (d < depth - 1 and rng.random() < p_stop):
+            return {"t": f2b(rng.uniform(-10, 10))}
+        if rng.random() < chance_rate:
+            k = rng.choice([2, 2, 3])
+            return {"c": None, "o": [[f2b(rng.uniform(0.2, 2.0)), go(d - 1, pl, h)] for _ in range(k)]}
+        k = rng.choice([2, 2, 3])
+        key = (pl, h[pl - 1], k)
+        pool = pools.setdefault(key, [])
+        if pool and rng.random() < share:
+            info, acts = rng.choice(pool)
+        else:
+            info, acts = fresh() + 100, [fresh() + 10000 for _ in range(k)]
+            pool.append((info, acts))
+        kids = []
+        for ai, a in enumerate(acts):
+            nh = list(h)
+            nh[pl - 1] = h[pl - 1] + ((info, ai),)
+            kids.append([a, go(d - 1, 3 - pl, tuple(nh))])
+        return {"p": pl, "i": info, "a": kids}
+    t = go(depth, first, ((), ()))
+    return t, tree_stats(t)
